@@ -22,7 +22,7 @@ func init() { core.Register(area{}) }
 func (area) Name() string { return "tagfilter" }
 
 // number of deterministic witness cases at the start of every run
-const nWitness = 8
+const nWitness = 9
 
 func (area) Run(c *core.Ctx) error {
 	for i := 0; i < c.N; i++ {
@@ -48,6 +48,10 @@ func (area) Run(c *core.Ctx) error {
 			witnessInsideFlush(c)
 		case i == 7:
 			witnessParked(c)
+		case i == 8:
+			bigDictCase(c, 33000, true)
+		case c.Tier == "thorough" && i >= 11 && i <= 15:
+			bigDictCase(c, []int{32767, 32768, 32769, 40000, 70000}[i-11], i != 15)
 		case i%7 == 0:
 			readerCase(c, r)
 		case c.Tier == "thorough" && i == nWitness+1:
